@@ -197,6 +197,7 @@ let run_prop (prop : string) (path : string) =
   let cur_parsed : op option ref = ref None and cur_res = ref "" in
   let seen_shadow_fill = ref false in
   let reported : (string, unit) Hashtbl.t = Hashtbl.create 64 in
+  let esc_denoms : (string, string list) Hashtbl.t = Hashtbl.create 32 in   (* app:pair -> denoms watched on its escrow *)
   let case_mism0 = ref 0 in
   let geti tbl k = try Hashtbl.find tbl k with Not_found -> z0 in
   let rate_of a = geti rates (zs a) in
@@ -499,6 +500,9 @@ let run_prop (prop : string) (path : string) =
           let live = L.filter (fun (o : order) -> Hashtbl.mem impl (Printf.sprintf "ord:%s:%s:%s" a p (zs o.o_id))) os in
           (match (try Some (tokens (Hashtbl.find impl ("pair:" ^ ap))) with Not_found -> None) with
            | Some (base :: quote :: _) ->
+             (* per DENOM: the pair's two coins and every other coin watched on the escrow (all assets; whatever an
+                accepted order offers) - an order escrowed in a foreign coin is paid out of the other orders' coins *)
+             let others = L.filter (fun d -> d <> base && d <> quote) (try Hashtbl.find esc_denoms ap with Not_found -> []) in
              L.iter (fun d ->
                  let balk = Printf.sprintf "bal:esc.%s.%s:%s" a p d in
                  if Hashtbl.mem impl balk then begin
@@ -522,7 +526,7 @@ let run_prop (prop : string) (path : string) =
                    bump "eval:C07_feecoll";
                    if not (holds_C07_feecoll (rate_of (z a)) os (z d) (impl_z feek)) then
                      pf ~pred:"holds_C07_feecoll" ~kf:"none" ~detail:(Printf.sprintf "pair=%s_denom=%s_balance=%s" ap d (Hashtbl.find impl feek))
-                 end) [base; quote]
+                 end) (base :: quote :: others)
            | _ -> ())
         | _ -> ()) prs;
     (* C07: CancelMM / MM replace cancels every previously indexed MM order *)
@@ -575,6 +579,7 @@ let run_prop (prop : string) (path : string) =
           if not (holds_C04_farmed mb !q !act) then
             pf ~pred:"holds_C04_farmed_exact" ~kf:"none" ~detail:(Printf.sprintf "pool=%s:%s_module=%s_queued=%s_active=%s" a pl (zs mb) (zs !q) (zs !act));
           let sup = impl_z ("sup:" ^ d) in
+          if Hashtbl.mem changed ("sup:" ^ d) && zeq sup z0 then bump ("supply_to_zero:by_" ^ !cur_op);
           bump "eval:C04_disabled";
           if not (holds_C04_disabled sup (bool_of_tok dis)) then
             pf ~pred:"holds_C04_disabled" ~kf:"none" ~detail:(Printf.sprintf "pool=%s:%s_supply=0_not_disabled" a pl);
@@ -657,7 +662,7 @@ let run_prop (prop : string) (path : string) =
         Hashtbl.reset fills_net; Hashtbl.reset nonconserving; Hashtbl.reset changed; Hashtbl.reset prev_changed;
         Buffer.clear sig_; seen_fill := false; seen_end := false; seen_pool := false; seen_farm := false; pending_mm := None;
         Hashtbl.reset mi_ids; Hashtbl.reset shadow_pairs; Hashtbl.reset shadow_fills; Hashtbl.reset shadow_kf; Hashtbl.reset ex_flags;
-        Hashtbl.reset shadow_env; Hashtbl.reset app_nets; Hashtbl.reset wfee; Hashtbl.reset reported; model_flags := []; m_hdr := []; m_rows := []; m_need := 0; cur_parsed := None; cur_res := ""; seen_shadow_fill := false
+        Hashtbl.reset shadow_env; Hashtbl.reset app_nets; Hashtbl.reset wfee; Hashtbl.reset reported; Hashtbl.reset esc_denoms; model_flags := []; m_hdr := []; m_rows := []; m_need := 0; cur_parsed := None; cur_res := ""; seen_shadow_fill := false
       | "op" :: "endpanic" :: _ -> pf ~pred:"endblocker_no_panic" ~kf:"none" ~detail:"EndBlocker_panicked"
       | ["wfee"; a; r] -> Hashtbl.replace wfee a (z r)
       | ["ex"; a; f] -> Hashtbl.replace ex_flags a f
@@ -786,6 +791,13 @@ let run_prop (prop : string) (path : string) =
         (match (try Some (Hashtbl.find impl k) with Not_found -> None) with Some old -> Hashtbl.replace prev_changed k old | None -> ());
         Hashtbl.replace impl k v;
         (match S.split_on_char ':' k with
+         | ["bal"; acct; d] ->
+           (match S.split_on_char '.' acct with
+            | ["esc"; a; p] ->
+              let ap = a ^ ":" ^ p in
+              let ds = (try Hashtbl.find esc_denoms ap with Not_found -> []) in
+              if not (L.mem d ds) then Hashtbl.replace esc_denoms ap (ds @ [d])
+            | _ -> ())
          | ["ord"; a; p; _] ->
            let od = order_of_kv k v in
            if not (Hashtbl.mem known k) then begin
